@@ -57,6 +57,18 @@ structure WellFormed (c : LogConfig) : Prop where
   /-- a usable external-storage connection string when that backend is selected -/
   connUsable : c.storage = Gen.storageBackendCtfe → Usable c
 
+/-- in a usable connection string the scheme and the data source name are what `strings.Split(conn, "://")` yields:
+`conn = scheme ++ "://" ++ rest` with no further `://` in `rest` -/
+theorem usable_shape (c : LogConfig) (h : Usable c) :
+    ∃ scheme rest, c.conn = scheme ++ sepScheme ++ rest ∧ hasInfix rest sepScheme = false ∧
+      (scheme = mysqlBytes ∨ scheme = postgresBytes ∨ scheme = postgresqlBytes) := by
+  obtain ⟨_, scheme, rest, hs, hi, hk⟩ := h
+  refine ⟨scheme, rest, splitOnce_sound _ _ _ _ hs, hi, ?_⟩
+  rcases hk with ⟨h, _⟩ | ⟨h | h, _⟩
+  · exact Or.inl h
+  · exact Or.inr (Or.inl h)
+  · exact Or.inr (Or.inr h)
+
 theorem connOk_iff (c : LogConfig) : connOk c = .ok () ↔ Usable c := by
   unfold connOk Usable Gen.cfgConnMissing
   by_cases h0 : c.conn = []
@@ -382,6 +394,10 @@ theorem read_endpoints_always (c : LogConfig) :
   unfold endpoints
   cases c.isMirror <;> cases c.isReadonly <;>
     simp [Gen.handlersDropAdd, Gen.handlerPaths, Gen.handlerDropped, List.filter] <;> tauto
+
+/-- prefix normalisation of `Handlers` on the shapes operators write: `log` → `/log`, `//a//` → `//a`, `/` → empty -/
+example : normPrefix [108, 111, 103] = [47, 108, 111, 103] ∧ normPrefix [47, 47, 97, 47, 47] = [47, 47, 97] ∧
+    normPrefix [47] = [] ∧ normPrefix [] = [] := by decide
 
 /-- what `SetUpInstance` returns is determined by the configuration: handler set and getter kind -/
 theorem setUp_matches (c : LogConfig) (o : SetupOracle) (inst : Instance) (h : setUp c o = some inst) :
